@@ -430,3 +430,9 @@ def own_nodes(fn: ast.FunctionDef) -> Iterator[ast.AST]:
             yield from rec(ch)
     for st in fn.body:
         yield from rec(st)
+
+
+def rename_id(text: str, name: str, repl: str) -> str:
+    """Replace the identifier `name` (whole word) in unparsed source text."""
+    import re
+    return re.sub(rf"(?<![A-Za-z0-9_]){re.escape(name)}(?![A-Za-z0-9_])", repl, text)
